@@ -13,12 +13,19 @@ Definition vbool (b : bool) : val := Some (if b then 1 else 0).
 Definition is_zero (a : val) : bool := match a with Some x => Qeq_bool x 0 | None => false end.
 Definition vdiv_raw (a b : val) : res val :=      (* python float division *)
   if is_zero b then Err ZeroDiv else Ok (v2 Qdiv a b).
-(* x ** y for y a small non-negative integer value; anything else is outside the modelled domain *)
+(* x ** y as CPython computes it on floats, for integer-valued exponents: x ** 0 == 1 and 1 ** y == 1 (NaN included),
+   0.0 ** negative raises ZeroDivisionError; a non-integer exponent is outside the modelled domain (Err Other) *)
 Definition vpow (a b : val) : res val :=
   match a, b with
-  | Some x, Some y => if Qeq_bool y (inject_Z (Qnum y)) && (0 <=? Qnum y)%Z && (Z.pos (Qden y) =? 1)%Z
-                      then Ok (Some (Qpower x (Qnum y))) else Err Other
-  | _, _ => Ok None
+  | Some x, Some y =>
+      if Qeq_bool y 0 then Ok (Some 1) else if Qeq_bool x 1 then Ok (Some 1) else
+      let y' := Qred y in
+      if (Z.pos (Qden y') =? 1)%Z then
+        (if (Qnum y' <? 0)%Z && Qeq_bool x 0 then Err ZeroDiv else Ok (Some (Qpower x (Qnum y'))))
+      else Err Other
+  | None, Some y => if Qeq_bool y 0 then Ok (Some 1) else Ok None
+  | Some x, None => if Qeq_bool x 1 then Ok (Some 1) else Ok None
+  | None, None => Ok None
   end.
 
 Fixpoint mapM {A B} (f : A -> res B) (l : list A) : res (list B) :=
@@ -164,12 +171,21 @@ Definition apply_op (t : track) (op1 op2 : item) (c : ascii) (k : nat) : res (tr
         | SStr rhs =>
           if has_af t lhs then
             if existsb (str_eqb lhs) (map s_ ["x"; "y"; "z"; "t"]%string) then
-              do t1 <- set_coord_from t lhs rhs; do t2 <- remove_af t1 rhs; Ok (t2, SNone)
+              do t1 <- set_coord_from t lhs rhs;
+              (* only evaluator temporaries are consumed by the assignment (repair recorded under C02) *)
+              do t2 <- (match rhs with "#"%char :: _ => remove_af t1 rhs | _ => Ok t1 end); Ok (t2, SNone)
             else do af <- get_af t rhs; do t1 <- remove_af t lhs; do t2 <- create_af t1 lhs (IList af); Ok (t2, SNone)
           else do af <- get_af t rhs; do t1 <- create_af t lhs (IList af); Ok (t1, SNone)
         | _ => Err Other
         end
-      else do v <- item_float op2; do t1 <- create_af t lhs (IScalar v); Ok (t1, SNone)
+      else do v <- item_float op2;
+           (* a constant right-hand side (repair recorded under C02): written to the coordinate x / y / z, overwrites an
+              existing feature, creates a new one otherwise *)
+           if existsb (str_eqb lhs) (map s_ ["x"; "y"; "z"]%string) then do t1 <- set_col t lhs (repeat v (size t)); Ok (t1, SNone)
+           else match lookup (dico t) lhs with
+                | Some _ => do t1 <- set_col t lhs (repeat v (size t)); Ok (t1, SNone)
+                | None => do t1 <- create_af t lhs (IScalar v); Ok (t1, SNone)
+                end
     | _ => Err Other
     end
   else
@@ -181,7 +197,7 @@ Definition apply_op (t : track) (op1 op2 : item) (c : ascii) (k : nat) : res (tr
         if Ascii.eqb c "+" then Some (Ok (t, SNum (vadd a b))) else if Ascii.eqb c "-" then Some (Ok (t, SNum (vsub a b)))
         else if Ascii.eqb c "*" then Some (Ok (t, SNum (vmul a b)))
         else if Ascii.eqb c "/" then Some (do q <- vdiv_raw a b; Ok (t, SNum q))
-        else if Ascii.eqb c "^" then Some (Err TypeError)
+        else if Ascii.eqb c "^" then Some (do p <- vpow a b; Ok (t, SNum p))      (* op1 ** op2 (repair recorded under C02; was the bitwise ^ on floats: TypeError) *)
         else if Ascii.eqb c ">" then Some (Ok (t, SNum (vbool (vgt a b))))
         else if Ascii.eqb c "<" then Some (Ok (t, SNum (vbool (vlt a b)))) else None
       | _, _ => None
